@@ -136,6 +136,7 @@ static inline ref::Layout gen_layout(const Table& t, const LayoutOpts& lo) {
         cl.page_entries = gen_page_split(rg.cols[c], lo.simple_pages);
         cl.dict = draw(2) == 1; cl.dict_tag = draw(2) ? 8 : 2; cl.dict_page_enc = draw(2) ? 2 : 0;
         cl.fallback_after = cl.dict && draw(5) == 4 ? (int)draw((uint32_t)cl.page_entries.size() + 1) : -1;
+        cl.plain_first = cl.dict && draw(6) == 5 ? 1 + (int)draw(2) : 0;
         cl.extra_index_bits = draw(6) == 5 ? (int)draw(5) : 0;
         cl.level_policy = (int)draw(4); cl.index_policy = (int)draw(4);
         cl.crc = draw(2) == 1; cl.dict_offset_present = draw(4) != 3;
